@@ -12,6 +12,10 @@
     (c) [serialize_h1]: kawa's H1 block converter on what (b) produced.
     (d) [data_agree]: the Content-Length / DATA ledger of
         [mux/h2.rs::handle_data_frame] and the trailer path.
+    (e) [accept_trailers] / [serialize_trailers]: [pkawa::handle_trailer] on a
+        request trailer block and what kawa's H1 converter writes for it.
+    (f) [park]: the rule of [mux/h1.rs::ConnectionH1::end_stream] deciding
+        whether an HTTP/1.1 backend connection is kept for the next request.
     No proofs in this file. *)
 From Coq Require Import List NArith Bool String Ascii.
 From SV Require Import C13.Model.
@@ -394,3 +398,45 @@ Fixpoint data_agree (declared : option N) (received : N) (evs : list ev) : outco
     | None => Complete received
     end
   end.
+
+(* ------------------------------------------------------------------ *)
+(** * (e) [pkawa::handle_trailer] on a request trailer block
+
+    Every field of the block goes through the callback in order: a name that
+    starts with ':' (ANY such name, registered pseudo-header or not) and a
+    field [classify_invalid_h2_header] refuses make the whole block invalid
+    (the stream is reset, nothing of the block is written); the four
+    attribution names are dropped; on a Content-Length framed message the
+    fields cannot be represented and are all dropped. *)
+
+Definition starts_colon (n : list N) : bool := match n with 58 :: _ => true | _ => false end.
+
+Definition trailer_refused (h : header) : bool :=
+  starts_colon (fst h) || invalid_h2_header (fst h) (snd h).
+
+Definition accept_trailers (length_framed : bool) (ts : list header) : option (list header) :=
+  if existsb trailer_refused ts then None
+  else Some (if length_framed then [] else trailers_h2 ts).
+
+(** what the H1 converter writes after the last-chunk line for the accepted fields *)
+Definition serialize_trailers (ts : list header) : list N := flat_map line_of ts ++ crlf.
+
+(* ------------------------------------------------------------------ *)
+(** * (f) keeping an HTTP/1.1 backend connection ([ConnectionH1::end_stream], client side)
+
+    When the stream attached to a backend connection ends, the connection is
+    parked for the next request ([BackendStatus::KeepAlive]) or closed. *)
+
+Record exchange := mkx {
+  x_keep_alive : bool;        (* context.keep_alive_backend *)
+  x_response_done : bool;     (* back.is_terminated() *)
+  x_interim : bool;           (* the response buffer holds a 1xx *)
+  x_request_parsed : bool;    (* front.is_terminated(): the request was received to its end *)
+  x_request_flushed : bool    (* front.is_completed(): every block of it was written to the backend *)
+}.
+
+Definition park (x : exchange) : bool :=
+  x_keep_alive x && x_response_done x && negb (x_interim x) && (x_request_parsed x && x_request_flushed x).
+
+(** bytes the backend is still waiting for on the connection *)
+Definition request_unfinished (x : exchange) : bool := negb (x_request_parsed x && x_request_flushed x).
